@@ -2,6 +2,7 @@ package main
 
 import (
 	"fmt"
+	"go/token"
 	"go/types"
 
 	"golang.org/x/tools/go/ssa"
@@ -30,6 +31,9 @@ func propC15(w *World, r *Report) {
 	checkLayoutPipeline(w, r)
 	checkBufReset(w, r)
 	RunKernFlags(w, r)
+	RunCursorAdvance(w, r, w.LibFuncs())
+	RunLookupZero(w, r)
+	r.Floor("cursoradvance", 1)
 }
 
 func checkFindLookups(w *World, r *Report) {
@@ -365,4 +369,211 @@ func checkBufReset(w *World, r *Report) {
 		}
 	}
 	r.Floor("bufreset", 1)
+}
+
+// RunCursorAdvance: a loop that positions the reader with a loop-carried
+// cursor (SeekPos(pos) / ReadAt(.., pos) at the start of each iteration)
+// must advance that cursor on every path to the next iteration; a
+// `continue` that skips the advance makes the next iteration read the same
+// record again and everything after it is lost or misread.
+func RunCursorAdvance(w *World, r *Report, fns []*ssa.Function) {
+	r.Rule("cursoradvance: where a loop seeks to (or reads at) a loop-carried position variable, no path around the loop leaves that variable unchanged (every value flowing back into it differs from its value at the start of the iteration)")
+	for _, fn := range fns {
+		if fn.Blocks == nil {
+			continue
+		}
+		for _, l := range naturalLoops(fn) {
+			for _, in := range l.head.Instrs {
+				ph, ok := in.(*ssa.Phi)
+				if !ok {
+					break
+				}
+				if !isIntType(ph.Type()) {
+					continue
+				}
+				// used as a seek/read position inside the loop?
+				used := false
+				var use ssa.Instruction
+				seen := map[ssa.Value]bool{}
+				var visit func(v ssa.Value, depth int)
+				visit = func(v ssa.Value, depth int) {
+					if seen[v] || depth > 3 || v.Referrers() == nil {
+						return
+					}
+					seen[v] = true
+					for _, ref := range *v.Referrers() {
+						if ref.Block() == nil || !l.body[ref.Block()] {
+							continue
+						}
+						switch x := ref.(type) {
+						case *ssa.Convert:
+							visit(x, depth+1)
+						case *ssa.ChangeType:
+							visit(x, depth+1)
+						case *ssa.Call:
+							name := ""
+							if c := x.Call.StaticCallee(); c != nil {
+								name = c.Name()
+							} else if x.Call.IsInvoke() {
+								name = x.Call.Method.Name()
+							}
+							switch name {
+							case "SeekPos", "Seek", "ReadAt":
+								for _, a := range x.Call.Args {
+									if a == v {
+										used, use = true, x
+									}
+								}
+							}
+						}
+					}
+				}
+				visit(ph, 0)
+				if !used {
+					continue
+				}
+				key := r.MkKey("cursoradvance", fnName(fn), "cursor "+ph.Comment)
+				stuck := false
+				for i, e := range ph.Edges {
+					if l.body[l.head.Preds[i]] && phiSourceIs(e, ph, map[ssa.Value]bool{}) {
+						stuck = true
+					}
+				}
+				if stuck {
+					r.Fail("cursoradvance", key, w.Pos(use.Pos()), "the position "+ph.Comment+" used here can reach the next iteration unchanged (a continue path skips its update): the same record is read again and the records behind it are never reached", nil)
+				} else {
+					r.OK("cursoradvance", key, w.Pos(use.Pos()), "updated on every path around the loop")
+				}
+			}
+		}
+	}
+}
+
+// phiSourceIs: v can be the value ph itself (through other phis), unchanged.
+func phiSourceIs(v ssa.Value, ph *ssa.Phi, seen map[ssa.Value]bool) bool {
+	if v == ssa.Value(ph) {
+		return true
+	}
+	if seen[v] {
+		return false
+	}
+	seen[v] = true
+	if q, ok := v.(*ssa.Phi); ok {
+		for _, e := range q.Edges {
+			if phiSourceIs(e, ph, seen) {
+				return true
+			}
+		}
+	}
+	return false
+}
+
+// RunLookupZero: glyph ids obtained from the character map while *building
+// substitution rules* (the synthetic ligature lookup, the lookup description
+// parser) must be tested against 0 one by one: 0 is .notdef, "character not
+// in the font", and a rule with .notdef in its input fires on every unmapped
+// character.
+func RunLookupZero(w *World, r *Report) {
+	r.Rule("lookupzero: in the functions that build lookup rules from characters (sfnt.standardLigatures, builder.parser.readGlyphList) every result of cmap Lookup is itself compared with 0 and the zero outcome does not reach the place where the glyph is added to a rule")
+	for _, name := range []string{"(*sfnt.Font).standardLigatures", "sfnt.standardLigatures", "(*opentype/gtab/builder.parser).readGlyphList"} {
+		fn := w.Func(name)
+		if fn == nil {
+			continue
+		}
+		for _, b := range fn.Blocks {
+			for _, in := range b.Instrs {
+				c, ok := in.(*ssa.Call)
+				if !ok || !c.Call.IsInvoke() || c.Call.Method.Name() != "Lookup" {
+					continue
+				}
+				key := r.MkKey("lookupzero", fnName(fn), "result of cmap Lookup")
+				tested := false
+				var uses []ssa.Instruction
+				if c.Referrers() != nil {
+					for _, ref := range *c.Referrers() {
+						if bo, ok := ref.(*ssa.BinOp); ok && (bo.Op == token.EQL || bo.Op == token.NEQ) {
+							if k, ok := bconstInt(bo.Y); ok && k == 0 {
+								tested = true
+								continue
+							}
+						}
+						uses = append(uses, ref)
+					}
+				}
+				// every other use must be dominated by the outcome "not zero" of such a test
+				okUses := tested
+				if tested {
+					for _, u := range uses {
+						guarded := false
+						for _, g := range guardsOf(u.Block()) {
+							if bo, ok := g.cond.(*ssa.BinOp); ok && bo.X == ssa.Value(c) {
+								if k, ok := bconstInt(bo.Y); ok && k == 0 {
+									if bo.Op == token.EQL && !g.then || bo.Op == token.NEQ && g.then {
+										guarded = true
+									}
+								}
+							}
+						}
+						if !guarded {
+							// the zero branch may end in a call that never returns (p.fatal)
+							for _, ref := range *c.Referrers() {
+								bo, ok := ref.(*ssa.BinOp)
+								if !ok || bo.Referrers() == nil {
+									continue
+								}
+								for _, r2 := range *bo.Referrers() {
+									ifi, ok := r2.(*ssa.If)
+									if !ok {
+										continue
+									}
+									zero := ifi.Block().Succs[0]
+									if bo.Op == token.NEQ {
+										zero = ifi.Block().Succs[1]
+									}
+									if blockNeverContinues(zero) && ifi.Block().Dominates(u.Block()) {
+										guarded = true
+									}
+								}
+							}
+						}
+						if !guarded {
+							okUses = false
+						}
+					}
+				}
+				if okUses {
+					r.OK("lookupzero", key, w.Pos(c.Pos()), "compared with 0, used only when non-zero")
+				} else {
+					r.Fail("lookupzero", key, w.Pos(c.Pos()), "the glyph id returned by the character map is added to a rule without being tested against 0 (.notdef): for a font that lacks the character the rule then matches every unmapped character", nil)
+				}
+			}
+		}
+	}
+	r.Floor("lookupzero", 2)
+}
+
+// blockNeverContinues: the block calls a function without any return
+// instruction (it always panics), or ends in a panic itself.
+func blockNeverContinues(b *ssa.BasicBlock) bool {
+	for _, in := range b.Instrs {
+		switch x := in.(type) {
+		case *ssa.Panic:
+			return true
+		case *ssa.Call:
+			if callee := x.Call.StaticCallee(); callee != nil && callee.Blocks != nil {
+				hasRet := false
+				for _, cb := range callee.Blocks {
+					if len(cb.Instrs) > 0 {
+						if _, ok := cb.Instrs[len(cb.Instrs)-1].(*ssa.Return); ok {
+							hasRet = true
+						}
+					}
+				}
+				if !hasRet {
+					return true
+				}
+			}
+		}
+	}
+	return false
 }
